@@ -20,8 +20,9 @@
   `decodeAll` of the stored frames; with C01's lossless side condition the two cancel (`write_then_read`).
 
   `RwInv` (SfProofs/RdwrInv.lean) is the invariant: HInv's sign conditions, `0 ≤ frames`, data offset = the header
-  length the container writes, no PEAK table, `dataend = 0`, the store is header region ++ exactly `frames` whole
-  frames, and the descriptor position agrees with the pointer the last operation used.
+  length the container writes, no PEAK table, `dataend = 0` (RAW, AU), the store is header region ++ exactly `frames`
+  whole frames ++ at most the zero pad byte behind an odd-length WAV data chunk (`TailOk`), and the descriptor position
+  agrees with the pointer the last operation used.
   Containers: RAW, AU, WAV as modelled in SfModel/Handle.lean; every sample-granular encoding they offer.
 -/
 import SfProofs.RdwrCor
@@ -52,6 +53,12 @@ theorem RwInv_initial_tight (ix : Nat) (s0 : Store) (fmt : Nat) (ch sr : Int) (h
     RwInv { h with canTruncate := b } s :=
   (RwInv_open ix s0 fmt ch sr h s ho ht).setTruncate b
 
+/-- … or "padded": tight up to the single zero pad byte behind an odd-length WAV data chunk -/
+theorem RwInv_initial_padded (ix : Nat) (s0 : Store) (fmt : Nat) (ch sr : Int) (h : H) (s : Store)
+    (ho : openHandle ix s0 .rw fmt ch sr = .ok h s) (ht : OpenPadded h s) (b : Bool) :
+    RwInv { h with canTruncate := b } s :=
+  (RwInv_open_padded ix s0 fmt ch sr h s ho ht).setTruncate b
+
 /-- every call of the alphabet preserves it, on every route -/
 theorem RwInv_preserved (h : H) (s : Store) (op : ROp) (inv : RwInv h s) (hok : op.ok h) :
     RwInv (stepAny h s (op.toOp h)).1 (stepAny h s (op.toOp h)).2.1 :=
@@ -65,7 +72,9 @@ theorem RwInv_reachable (h : H) (s : Store) (ops : List ROp) (inv : RwInv h s) (
 /-- it implies C05's `HInv`, and says in plain terms: -/
 theorem RwInv_gives (h : H) (s : Store) (inv : RwInv h s) :
     HInv h s ∧ h.mode = .rw ∧ 0 ≤ h.rpos ∧ 0 ≤ h.wpos ∧ 0 ≤ h.frames ∧ h.dataoffset = (hdrLenOf h : Nat) ∧
-    h.peak = none ∧ h.dataend = 0 ∧ (s.bytes.length : Int) = h.dataoffset + h.frames * (h.bw : Int) ∧
+    h.peak = none ∧ (h.container ≠ .wav → h.dataend = 0) ∧
+    (∃ t : Nat, (s.bytes.length : Int) = h.dataoffset + h.frames * (h.bw : Int) + t ∧
+      (t = 0 ∨ (t = 1 ∧ h.container = .wav)) ∧ s.bytes.drop (s.bytes.length - t) = zeros t) ∧
     ((absOf h s).frames.length : Int) = h.frames ∧ ((absOf h s).rpos : Int) = h.rpos ∧
     ((absOf h s).wpos : Int) = h.wpos ∧ (∀ g ∈ (absOf h s).frames, g.length = h.bw) :=
   let g := inv.gives
@@ -84,7 +93,7 @@ theorem RwInv_gives (h : H) (s : Store) (inv : RwInv h s) :
     to no abstract operation; the abstract file of the statement promises truncation only where the route supports it.
     (Before the repair the theorem needed `canTruncate` for truncate: `rdwr_refines_old_rule`.) -/
 theorem rdwr_refines (h : H) (s : Store) (op : ROp) (inv : RwInv h s) (hok : op.ok h) :
-    op.outOk h (absOf h s) (stepAny h s (op.toOp h)).2.2 ∧
+    op.outOk h s (absOf h s) (stepAny h s (op.toOp h)).2.2 ∧
     RwInv (stepAny h s (op.toOp h)).1 (stepAny h s (op.toOp h)).2.1 ∧
     absOf (stepAny h s (op.toOp h)).1 (stepAny h s (op.toOp h)).2.1 =
       (absOf h s).stepOpt (zeroFrame h.bw) (op.toAOp h) :=
@@ -133,13 +142,14 @@ theorem write_puts_values (h : H) (s : Store) (inv : RwInv h s) (ty : Ty) (fc : 
       (fun v hvx => hl v (hsub x hx v hvx)))
 
 /-- … and a read of `k` frames returns the frames `rpos … rpos+k` of that view (as many as exist), the rest of the
-    requested region untouched (or zero when the read position was at / after the end) -/
+    requested region untouched — or zero when the read position was at / after the end, and (`readFill`) when the
+    request ran past the end of a WAV of 1-byte samples into the pad byte behind its odd-length data -/
 theorem read_returns_values (h : H) (s : Store) (inv : RwInv h s) (ty : Ty) (fc : Bool) (k : Nat) (hk : 0 < k) :
     let r := stepAny h s ((ROp.read ty fc k).toOp h)
     let got := ((absValues h s ty).drop (absOf h s).rpos).take k
     r.2.2.ret = callCount h fc got.length ∧ r.2.2.err = 0 ∧
     r.2.2.data = got.flatten ++ List.replicate ((k - got.length) * h.ch)
-      (if (absOf h s).rpos < (absOf h s).frames.length then pattern ty else 0) :=
+      (if (absOf h s).rpos < (absOf h s).frames.length then readFill h s ty k got.length else 0) :=
   read_values_core h s inv ty fc k hk
 
 /-- `overwrite_keeps_length`: writing inside existing data replaces exactly the frames `wpos … wpos+k` and leaves
@@ -271,23 +281,24 @@ theorem reopen_reads_final (h : H) (s : Store) (inv : RwInv h s) (fmt : Nat) (ch
 
 /-- the "pre-populated file" of the statement: close, then open SFM_RDWR again — the open succeeds, the new handle
     satisfies the invariant (so every theorem above applies to the second session), it stands for the final frames
-    with the read position at 0 and the write position at the end.  WAV: when no pad byte follows the data (`NoPad`). -/
+    with the read position at 0 and the write position at the end.  FULL strength for RAW, AU and WAV: a WAV whose
+    odd-length data is followed by the pad byte is covered (the invariant admits that zero byte). -/
 theorem reopen_rdwr_continues (h : H) (s : Store) (inv : RwInv h s) (fmt : Nat) (ch sr : Int) (cfg : CfgOf fmt ch sr h)
-    (hsr : sr ≤ 0x7FFFFFFF) (hguard : h.container = .wav → h.frames * (h.bw : Int) < 0xFFFFFFFF) (hnp : NoPad h)
+    (hsr : sr ≤ 0x7FFFFFFF) (hguard : h.container = .wav → h.frames * (h.bw : Int) < 0xFFFFFFFF)
     (ix pos : Nat) :
     ∃ h' s', openHandle ix ⟨(closeHandle h s).bytes, pos⟩ .rw fmt ch sr = .ok h' s' ∧ RwInv h' s' ∧
       absOf h' s' = { frames := (absOf h s).frames, rpos := 0, wpos := (absOf h s).frames.length } ∧
       h'.frames = h.frames ∧ h'.ch = h.ch ∧ h'.enc = h.enc :=
-  reopen_rw_effect h s inv cfg hsr hguard hnp ix pos
+  reopen_rw_effect h s inv cfg hsr hguard ix pos
 
 /-- the other "pre-populated file": one written by a write-only session (open SFM_WRITE on a new file, any valid write
     calls and header updates, close — the sessions of C04 / C07).  Opened SFM_RDWR it satisfies the invariant and stands
     for exactly the frames written, read position 0, write position at the end.  Excluded (`hex`): WAV float/double
-    (such a file carries a PEAK chunk) and WAV data ending on an odd offset (pad byte). -/
+    (such a file carries a PEAK chunk).  A WAV whose odd-length data is followed by the pad byte is covered. -/
 theorem prepopulated_opens_rdwr (ix fmt : Nat) (ch sr : Int) (h0 : H) (s0 : Store) (ops : List SOp)
     (ho : openHandle ix {} .w fmt ch sr = .ok h0 s0) (hsr : sr ≤ 0x7FFFFFFF) (hv : ∀ op ∈ ops, op.valid ch.toNat)
     (hex : ∀ c, openCfg fmt ch sr = some c → c.hasPeak = false ∧
-      (c.container = .wav → (sessData c ops).length < 0xFFFFFFFF ∧ (c.hdrLen + (sessData c ops).length) % 2 = 0))
+      (c.container = .wav → (sessData c ops).length < 0xFFFFFFFF))
     (ix' pos : Nat) :
     ∃ c h' s', openCfg fmt ch sr = some c ∧
       openHandle ix' ⟨(closeHandle (runS (h0, s0) ops).1 (runS (h0, s0) ops).2).bytes, pos⟩ .rw fmt ch sr = .ok h' s' ∧
@@ -361,9 +372,13 @@ theorem rdwr_refines_old_rule :
     ¬ RwInv (stepTruncateOld tH tS 3).1 (stepTruncateOld tH tS 3).2.1 := by
   refine ⟨by decide, by decide, by decide, by decide, ?_⟩
   intro i'
-  have := i'.gives.2.2.2.2.2.2.2.2.2.1
-  revert this
-  decide
+  obtain ⟨t, h1, _, _⟩ := i'.gives.2.2.2.2.2.2.2.2.2.1
+  have e1 : (stepTruncateOld tH tS 3).2.1.bytes.length = 4 := by decide
+  have e2 : (stepTruncateOld tH tS 3).1.dataoffset = 0 := by decide
+  have e3 : (stepTruncateOld tH tS 3).1.frames = 3 := by decide
+  have e4 : (stepTruncateOld tH tS 3).1.bw = 2 := by decide
+  rw [e1, e2, e3, e4] at h1
+  omega
 
 /-- on routes where `ftruncate` works the repair changed nothing -/
 theorem truncate_rule_unchanged_with_ftruncate (h : H) (s : Store) (f : Int) (hc : h.canTruncate = true) :
@@ -385,18 +400,24 @@ theorem pH_opened : openHandle 0 pS .rw 0x040002 1 8000 = .ok pH pS := by rfl
     frame, but a write past the end makes it one: seek the write pointer to 3, write one frame — frame 1 is then
     `77 00`, not the zero frame the abstract file puts into a hole.  (Real library, same script: read-back
     `6655 0077 0000 0007`.)  Not a defect of the library: the content of a hole is not promised by the property;
-    it is the reason the refinement needs "nothing but whole frames behind the header". -/
+    it is the reason the refinement needs "nothing but whole frames (and the WAV pad byte) behind the header". -/
 theorem RwInv_initial_full_fails : ¬ RwInv_initial_full := by
   intro hfull
-  have := (hfull 0 pS 0x040002 1 8000 pH pS pH_opened).gives.2.2.2.2.2.2.2.2.2.1
-  revert this
-  decide
+  obtain ⟨t, h1, h2, _⟩ := (hfull 0 pS 0x040002 1 8000 pH pS pH_opened).gives.2.2.2.2.2.2.2.2.2.1
+  have e1 : pS.bytes.length = 3 := by decide
+  have e2 : pH.dataoffset = 0 := by decide
+  have e3 : pH.frames = 1 := by decide
+  have e4 : pH.bw = 2 := by decide
+  rw [e1, e2, e3, e4] at h1
+  rcases h2 with h0 | ⟨_, hw⟩
+  · omega
+  · exact absurd hw (by decide)
 
 theorem partial_frame_hole_not_zero :
     (runR pH pS [.seek .set .wr 3, .write .s16 true [7]]).2.bytes = [0x55, 0x66, 0x77, 0, 0, 0, 7, 0] := by decide
 
-/-- what holds: `RwInv_initial_tight` (and its instances `RwInv_initial_new`, `RwInv_initial_raw`).  NOT covered, and
-    not claimed: a pre-populated WAV whose odd-length data chunk is followed by the pad byte (`dataend ≠ 0`) and a WAV
+/-- what holds: `RwInv_initial_tight` / `RwInv_initial_padded` (and the instances `RwInv_initial_new`,
+    `RwInv_initial_raw`).  NOT covered, and not claimed: a WAV
     float file carrying a PEAK chunk (`peak ≠ none`; files written in SFM_WRITE mode have one, files created in
     SFM_RDWR mode do not).  For files an RDWR session left behind `reopen_rdwr_continues` proves tightness. -/
 theorem RwInv_initial_partial (ix : Nat) (s0 : Store) (fmt : Nat) (ch sr : Int) (h : H) (s : Store)
@@ -464,9 +485,9 @@ example : CfgOf 0x040002 2 8000 eH :=
   let c := open_rw_cfg 0 {} 0x040002 2 8000 _ _ eH_opened (Or.inl rfl)
   ⟨c.cont, c.enc, c.big, c.fmtWord, c.chr, c.srr, c.hch, c.hsr⟩
 
-/-- `reopen_rdwr_continues` / `reopen_sees_final`: a new 16-bit mono WAV meets `NoPad` and `CfgOf` -/
-example : ∃ h s, openHandle 0 {} .rw 0x010002 1 8000 = .ok h s ∧ NoPad h ∧ CfgOf 0x010002 1 8000 h := by
-  refine ⟨_, _, rfl, by intro _; decide, open_rw_cfg 0 {} 0x010002 1 8000 _ _ rfl (Or.inl rfl)⟩
+/-- `reopen_rdwr_continues` / `reopen_sees_final`: a new 16-bit mono WAV meets `CfgOf` -/
+example : ∃ h s, openHandle 0 {} .rw 0x010002 1 8000 = .ok h s ∧ CfgOf 0x010002 1 8000 h := by
+  refine ⟨_, _, rfl, open_rw_cfg 0 {} 0x010002 1 8000 _ _ rfl (Or.inl rfl)⟩
 
 /-- `prepopulated_opens_rdwr`: C04's AU session (stereo 16-bit, three frames) meets the hypotheses -/
 example : (∃ h0 s0, openHandle 0 {} .w 0x030002 2 44100 = .ok h0 s0) ∧ (∀ op ∈ C04.exOps, op.valid (2 : Int).toNat) ∧
@@ -478,7 +499,7 @@ example : (∃ h0 s0, openHandle 0 {} .w 0x030002 2 44100 = .ok h0 s0) ∧ (∀ 
   have hcc : c.container = .au := (Option.some.inj (f1.symm.trans h0))
   exact ⟨by simp [Cfg.hasPeak, hcc], fun hw => by rw [hcc] at hw; cases hw⟩
 
-/-! ### the pad byte: why `NoPad` is asked for -/
+/-! ### the pad byte -/
 
 def okDataend : OpenRes → Int
   | .ok h _ => h.dataend
@@ -489,42 +510,35 @@ def oddWav : List Byte :=
   | .ok h s => (closeHandle (runR h s [.write .s16 true [256]]).1 (runR h s [.write .s16 true [256]]).2).bytes
   | _ => []
 
-/-- witness: the file is 46 bytes (44 header, 1 data, 1 pad); re-opened SFM_RDWR its handle has `dataend = 45 ≠ 0`,
-    so it is not "tight" — the invariant (not the library) excludes it: the byte behind the data is the zero pad -/
+/-- the file is 46 bytes (44 header, 1 data, 1 pad); re-opened SFM_RDWR its handle has `dataend = 45 ≠ 0` and the store
+    holds one byte behind the data — the case the invariant admits since round 3 (`TailOk`) -/
 theorem odd_wav_reopens_with_dataend :
     oddWav.length = 46 ∧ okDataend (openHandle 0 ⟨oddWav, 0⟩ .rw 0 0 0) = 45 := by decide +kernel
-
-/-- `reopen_rdwr_continues` without the `NoPad` side condition -/
-def reopen_rdwr_continues_full : Prop :=
-  ∀ (h : H) (s : Store) (fmt : Nat) (ch sr : Int), RwInv h s → CfgOf fmt ch sr h → sr ≤ 0x7FFFFFFF →
-    (h.container = .wav → h.frames * (h.bw : Int) < 0xFFFFFFFF) → ∀ ix pos : Nat,
-    ∃ h' s', openHandle ix ⟨(closeHandle h s).bytes, pos⟩ .rw fmt ch sr = .ok h' s' ∧ RwInv h' s'
 
 def oH : H := match openHandle 0 {} .rw 0x010005 1 8000 with | .ok h _ => h | _ => default
 def oS : Store := match openHandle 0 {} .rw 0x010005 1 8000 with | .ok _ s => s | _ => default
 theorem oH_opened : openHandle 0 {} .rw 0x010005 1 8000 = .ok oH oS := by rfl
 
-/-- witness: the one-frame 8-bit mono WAV above.  Not a defect of the library (the byte behind the data is the zero pad the
-    RIFF format asks for, and the second session works); what is missing is an invariant that admits a zero tail. -/
-theorem reopen_rdwr_continues_full_fails : ¬ reopen_rdwr_continues_full := by
-  intro hfull
+/-- non-vacuity of `reopen_rdwr_continues` on the pad-byte case: the one-frame 8-bit mono WAV, closed and opened SFM_RDWR
+    again, satisfies the invariant and stands for its one frame; a read of 3 frames there runs into the pad byte: one
+    frame delivered, the other two cells ZERO (not the untouched pattern) — `readFill` -/
+theorem odd_wav_second_session :
+    ∃ h' s', openHandle 0 ⟨(closeHandle (runR oH oS [.write .s16 true [256]]).1 (runR oH oS [.write .s16 true [256]]).2).bytes, 0⟩
+        .rw 0x010005 1 8000 = .ok h' s' ∧ RwInv h' s' ∧ (absOf h' s').frames = [[129]] ∧ (absOf h' s').wpos = 1 := by
   have inv0 : RwInv oH oS := RwInv_open 0 {} 0x010005 1 8000 oH oS oH_opened (open_fresh_tight 0 {} 0x010005 1 8000 oH oS oH_opened rfl)
   have cfg0 := open_rw_cfg 0 {} 0x010005 1 8000 oH oS oH_opened (Or.inl rfl)
   have hok : ∀ op ∈ [ROp.write .s16 true [256]], op.ok oH := by decide
   obtain ⟨inv1, sc⟩ := RwInv_runR [ROp.write .s16 true [256]] oH oS inv0 hok
-  obtain ⟨h', s', ho, inv'⟩ := hfull _ _ 0x010005 1 8000 inv1 (cfg0.congr sc) (by decide) (fun _ => by decide) 0 0
-  have hd : okDataend (openHandle 0 ⟨(closeHandle (runR oH oS [.write .s16 true [256]]).1 (runR oH oS [.write .s16 true [256]]).2).bytes, 0⟩ .rw 0x010005 1 8000) = 45 := by
-    decide +kernel
-  rw [ho] at hd
-  have := inv'.gives.2.2.2.2.2.2.2.2.1
-  simp only [okDataend] at hd
-  omega
-/-- what holds: `reopen_rdwr_continues` — RAW, AU, and WAV whose data section ends on an even offset -/
-theorem reopen_rdwr_continues_partial (h : H) (s : Store) (inv : RwInv h s) (fmt : Nat) (ch sr : Int)
-    (cfg : CfgOf fmt ch sr h) (hsr : sr ≤ 0x7FFFFFFF) (hguard : h.container = .wav → h.frames * (h.bw : Int) < 0xFFFFFFFF)
-    (hnp : NoPad h) (ix pos : Nat) :
-    ∃ h' s', openHandle ix ⟨(closeHandle h s).bytes, pos⟩ .rw fmt ch sr = .ok h' s' ∧ RwInv h' s' :=
-  let ⟨h', s', ho, i, _⟩ := reopen_rw_effect h s inv cfg hsr hguard hnp ix pos
-  ⟨h', s', ho, i⟩
+  obtain ⟨h', s', ho, inv', ha, _⟩ := reopen_rdwr_continues _ _ inv1 0x010005 1 8000 (cfg0.congr sc) (by decide)
+    (fun _ => by decide) 0 0
+  refine ⟨h', s', ho, inv', ?_, ?_⟩
+  · rw [ha]; decide
+  · rw [ha]; decide
+
+def padRead : Out :=
+  match openHandle 0 ⟨oddWav, 0⟩ .rw 0x010005 1 8000 with
+  | .ok h s => (stepAny h s ((ROp.read .s16 true 3).toOp h)).2.2
+  | _ => {}
+example : padRead.ret = 1 ∧ padRead.data = [256, 0, 0] := by decide +kernel
 
 end Sf.C08Refine
